@@ -1,77 +1,90 @@
 /-
 Props/C21 — DSV rows and fields follow quote-aware splitting.
-Property theorems only; lemmas live in Proof/DsvNav.lean.
+Property theorems only; lemmas live in Proof/DsvRank.lean (rank/select), Proof/DsvNavModel.lean
+(iteration = spec), Proof/DsvNavAccess.lean (random access), Proof/DsvNav.lean (spec facts).
 
-Status.  The model of the code (`Model/DsvNav.lean`: rank/select with `partition_point`, cursor,
-`DsvRows`, `DsvFields`, `DsvRow::get`, `Dsv::row`) is tied to the implementation by the
-correspondence check and cross-checked against the splitting spec on every request, but the
-theorems `rows_eq` / `fields_eq` / `row_random_access_eq_iteration` / `get_eq_iteration`
-(model = spec for all texts) are NOT proved yet; their statements are kept below as `def … : Prop`
-(never asserted).  What is proved: the append-separator invariance of the spec, and — on the model of
-the code, by evaluation — the refutation of the unrestricted `fields_eq` (finding F7).
+All theorems are about the model of the *repaired* code (repo commit 86e05db, finding F7): the
+cursor model `parse d q n text` = index built by any engine (C20) + `DsvIndexLightweight` rank/select
+with `partition_point` + `DsvCursor`/`DsvRows`/`DsvFields`/`DsvRow::get`/`Dsv::row`.  None of them
+needs the distinctness of the three special bytes.
 -/
+import SuccinctlyVerif.Proof.DsvNavAccess
 import SuccinctlyVerif.Proof.DsvNav
 namespace SV.Props.C21
 open SV SV.Dsv
 
-/-- F7 class: the text ends with a delimiter outside quotes — its final field is empty and the text
-does not end with the record separator. -/
-def endsWithUnquotedDelim (d q : Byte) (text : List Byte) : Bool :=
-  text.getLast? == some d && !(finalQuote q false text)
+/-- **fields_eq.** Iterating the rows and, within each row, its fields yields exactly the text split
+at record separators outside quotes (a final separator starts no row) and then at delimiters
+outside quotes, every field — including empty ones at the end of a row — as its raw bytes. -/
+theorem fields_eq (d q n : Byte) (text : List Byte) : (parse d q n text).rows = rowsSpec d q n text :=
+  DsvNavM.rows_eq_spec d q n text
 
-/-- Full statement of `rows_eq`/`fields_eq` (false for the code as it stands: see the refutation). -/
-def fields_eq_full_statement : Prop :=
-  ∀ (d q n : Byte), d ≠ q → q ≠ n → d ≠ n → ∀ text : List Byte,
-    (parse d q n text).rows = rowsSpec d q n text
+/-- **rows_eq.** The rows the iteration yields are, one for one, the record segments of the spec. -/
+theorem rows_eq (d q n : Byte) (text : List Byte) :
+    (parse d q n text).rowStarts.length = (rowSegs q n text).length
+    ∧ ∀ r : Nat, ((parse d q n text).rowStarts[r]?).map (parse d q n text).rowFields
+        = ((rowSegs q n text)[r]?).map (fieldsOf d q) := by
+  have h := fields_eq d q n text
+  unfold Ctx.rows rowsSpec at h
+  refine ⟨by simpa using congrArg List.length h, ?_⟩
+  intro r
+  have := congrArg (fun l => l[r]?) h
+  simpa using this
 
-/-- The statement that holds for the code as it stands (side condition = exactly the F7 class);
-not proved yet — checked by the driver on every request. -/
-def fields_eq_partial_statement : Prop :=
-  ∀ (d q n : Byte), d ≠ q → q ≠ n → d ≠ n → ∀ text : List Byte,
-    endsWithUnquotedDelim d q text = false → (parse d q n text).rows = rowsSpec d q n text
+/-- **row_random_access_eq_iteration.** `Dsv::row(r)` is the `r`-th row of the iteration — and `None`
+exactly when the iteration has no `r`-th row — for every `r`, including out-of-range ones. -/
+theorem row_random_access_eq_iteration (d q n : Byte) (text : List Byte) (r : Nat) :
+    (parse d q n text).row r = (parse d q n text).rowStarts[r]?
+    ∧ ((parse d q n text).row r).map (parse d q n text).rowFields = (rowsSpec d q n text)[r]? := by
+  have hr := DsvNavA.row_eq_rowStarts (DsvNavM.parse_good d q n text).1 r
+  refine ⟨hr, ?_⟩
+  rw [hr, ← fields_eq]
+  simp [Ctx.rows]
 
-/-- Random access = iteration, same side condition; not proved yet. -/
-def random_access_partial_statement : Prop :=
-  ∀ (d q n : Byte), d ≠ q → q ≠ n → d ≠ n → ∀ text : List Byte,
-    endsWithUnquotedDelim d q text = false → ∀ r c : Nat,
-      (((parse d q n text).row r).bind fun st => (parse d q n text).get st c) = cellSpec d q n text r c
+/-- **get_eq_iteration.** `row.get(col)` is the `col`-th field that iterating the row yields
+(`None` past the last field), for every row that exists and every `col`. -/
+theorem get_eq_iteration (d q n : Byte) (text : List Byte) (r st col : Nat)
+    (h : (parse d q n text).row r = some st) :
+    (parse d q n text).get st col = ((parse d q n text).rowFields st)[col]? := by
+  obtain ⟨g, ht⟩ := DsvNavM.parse_good d q n text
+  have hlt := DsvNavA.rowStarts_lt g r st (by rw [← DsvNavA.row_eq_rowStarts g r]; exact h)
+  exact DsvNavA.get_eq_fields g (DsvNavM.newline_sub_marker d q n text) st col hlt
 
-/-- **Finding F7, on the model of the code**: the unrestricted `fields_eq` is false.  For the text
-`a,` (CSV configuration) iteration yields the single field `a`, the spec yields `a` and the empty
-field; with the record separator appended (`a,\n`) the code yields both. -/
-theorem fields_eq_full_refuted : ¬ fields_eq_full_statement := by
-  intro h
-  have := h 0x2c#8 0x22#8 0x0a#8 (by decide) (by decide) (by decide) [0x61#8, 0x2c#8]
-  revert this
-  decide +kernel
+/-- Random access to row `r`, column `col` returns the spec's cell, for all indices. -/
+theorem cell_eq (d q n : Byte) (text : List Byte) (r col : Nat) :
+    (((parse d q n text).row r).bind fun st => (parse d q n text).get st col) = cellSpec d q n text r col := by
+  unfold cellSpec
+  rw [← (row_random_access_eq_iteration d q n text r).2]
+  cases h : (parse d q n text).row r with
+  | none => simp
+  | some st => simp [get_eq_iteration d q n text r st col h]
 
-example : (parse 0x2c#8 0x22#8 0x0a#8 [0x61#8, 0x2c#8]).rows = [[[0x61#8]]] := by decide +kernel
-example : rowsSpec 0x2c#8 0x22#8 0x0a#8 [0x61#8, 0x2c#8] = [[[0x61#8], []]] := by decide
-example : (parse 0x2c#8 0x22#8 0x0a#8 [0x61#8, 0x2c#8, 0x0a#8]).rows = [[[0x61#8], []]] := by decide +kernel
-example : endsWithUnquotedDelim 0x2c#8 0x22#8 [0x61#8, 0x2c#8] = true := by decide
-/-- `DsvRow::get(1)` on the same text: `None` instead of the empty field. -/
-example : (parse 0x2c#8 0x22#8 0x0a#8 [0x61#8, 0x2c#8]).get 0 1 = none
-    ∧ cellSpec 0x2c#8 0x22#8 0x0a#8 [0x61#8, 0x2c#8] 0 1 = some [] := by decide +kernel
-
-/-- `append_separator_invariant`, over the splitting spec (`_partial`: for the cursor model it
-follows from `fields_eq`, which the code violates exactly on the F7 class — there the appended
-separator *adds* the lost empty field): appending a record separator to a non-empty text with
-balanced quotes that does not already end with one changes neither the rows nor their fields. -/
-theorem append_separator_invariant_partial (d q n : Byte) (hqn : q ≠ n) (t : List Byte) (ht : t ≠ [])
+/-- **append_separator_invariant.** Appending a record separator to a non-empty text with balanced
+quotes that does not already end with one changes neither the rows nor their fields — as returned
+by the cursor model. -/
+theorem append_separator_invariant (d q n : Byte) (hqn : q ≠ n) (t : List Byte) (ht : t ≠ [])
     (hb : balanced q t = true) (hl : t.getLast? ≠ some n) :
-    rowsSpec d q n (t ++ [n]) = rowsSpec d q n t :=
-  DsvNavP.rowsSpec_append_sep d q n hqn t ht hb hl
+    (parse d q n (t ++ [n])).rows = (parse d q n t).rows := by
+  rw [fields_eq, fields_eq]
+  exact DsvNavP.rowsSpec_append_sep d q n hqn t ht hb hl
 
-/-- Non-vacuity: `a,b\nc` is non-empty, balanced and does not end with the separator. -/
+/-! Non-vacuity and regression. -/
+
+/-- `a,b\nc` is non-empty, balanced and does not end with the separator. -/
 example : ([0x61#8, 0x2c#8, 0x62#8, 0x0a#8, 0x63#8] : List Byte) ≠ [] ∧
     balanced 0x22#8 [0x61#8, 0x2c#8, 0x62#8, 0x0a#8, 0x63#8] = true ∧
     ([0x61#8, 0x2c#8, 0x62#8, 0x0a#8, 0x63#8] : List Byte).getLast? ≠ some 0x0a#8 := by decide
 
-/-- A final separator starts no extra row; empty fields are kept (spec, by evaluation). -/
+/-- A final separator starts no extra row; empty fields are kept. -/
 example : rowsSpec 0x2c#8 0x22#8 0x0a#8 [0x61#8, 0x2c#8, 0x2c#8, 0x0a#8, 0x0a#8]
     = [[[0x61#8], [], []], [[]]] := by decide
-/-- … and the model of the code agrees on it, including random access. -/
-example : (parse 0x2c#8 0x22#8 0x0a#8 [0x61#8, 0x2c#8, 0x2c#8, 0x0a#8, 0x0a#8]).rows
-    = [[[0x61#8], [], []], [[]]] := by decide +kernel
+
+/-- Regression for the repaired finding F7 (repo commit 86e05db): the text `a,` yields the field
+`a` and the final empty field, exactly like `a,\n`; before the repair the model of the code yielded
+`[["a"]]` and `get(1) = None` here. -/
+example : (parse 0x2c#8 0x22#8 0x0a#8 [0x61#8, 0x2c#8]).rows = [[[0x61#8], []]] := by
+  rw [fields_eq]; decide
+example : (parse 0x2c#8 0x22#8 0x0a#8 [0x61#8, 0x2c#8]).row 0 = some 0 := by decide +kernel
+example : (parse 0x2c#8 0x22#8 0x0a#8 [0x61#8, 0x2c#8]).get 0 1 = some [] := by decide +kernel
 
 end SV.Props.C21
